@@ -100,6 +100,7 @@ func LoadRepo(dir string, patterns []string, overlay map[string][]byte) (*Loaded
 			})
 		}
 	}
+	ld.allTypesPkgs()
 	// index functions
 	for _, sp := range ld.ssaPkgs {
 		for _, m := range sp.Members {
